@@ -279,6 +279,13 @@ static const char *fmt_plan(int n) {
 	return o;
 }
 
+static const char *fmt_ec(int written, int ec) {
+	static char o[24];
+	if (!written) return "(any)";
+	snprintf(o, sizeof o, "0x%x", ec);
+	return o;
+}
+
 /* per-case accumulators */
 static unsigned c_flags, c_final, c_fb;
 static long c_exec, c_inv, c_fails, c_byfinal[4];
@@ -354,8 +361,8 @@ static void execute(const char *part, KSI_VerificationContext *vc) {
 		int st, wr, erc, eec;
 		leaf_report(x.leaf[last], x.choice[last], &st, &wr, &erc, &eec);
 		if ((int)res->finalResult.resultCode != erc || (int)res->resultCode != erc || (wr && (int)res->finalResult.errorCode != eec))
-			report(part, "final-result", &x, rc, "expected verdict %s (result %d error 0x%x) of rule %d, got finalResult %d/0x%x, resultCode %d",
-			       VNAME[x.v[last]], erc, wr ? eec : -1, x.leaf[last], res->finalResult.resultCode, res->finalResult.errorCode, res->resultCode);
+			report(part, "final-result", &x, rc, "expected verdict %s (result %d error %s) of rule %d, got finalResult %d/0x%x, resultCode %d",
+			       VNAME[x.v[last]], erc, fmt_ec(wr, eec), x.leaf[last], res->finalResult.resultCode, res->finalResult.errorCode, res->resultCode);
 		else if (wr && res->finalResult.ruleName != LEAFNAME[x.leaf[last]])
 			report(part, "final-result-rule", &x, rc, "the reported result is not that of the last rule evaluated (%s): ruleName %s", LEAFNAME[x.leaf[last]],
 			       res->finalResult.ruleName ? res->finalResult.ruleName : "(null)");
@@ -369,7 +376,7 @@ static void execute(const char *part, KSI_VerificationContext *vc) {
 				KSI_RuleVerificationResult *pr = NULL;
 				leaf_report(x.leaf[i], x.choice[i], &st, &wr, &erc, &eec);
 				if (KSI_RuleVerificationResultList_elementAt(res->policyResults, (size_t)i, &pr) != KSI_OK || pr == NULL || (int)pr->resultCode != erc || (wr && (int)pr->errorCode != eec)) {
-					report(part, "policy-results-entry", &x, rc, "policyResults[%d]: expected %d/0x%x, got %d/0x%x", i, erc, wr ? eec : -1, pr ? (int)pr->resultCode : -1, pr ? (int)pr->errorCode : -1);
+					report(part, "policy-results-entry", &x, rc, "policyResults[%d]: expected %d/%s, got %d/0x%x", i, erc, fmt_ec(wr, eec), pr ? (int)pr->resultCode : -1, pr ? (int)pr->errorCode : -1);
 					break;
 				}
 			}
@@ -434,7 +441,7 @@ static void explore(const char *part, const char *text, int nout, int use_sig) {
 /* ------------------------------------------------------------------ parts */
 /* nesting depth bound as a function of the number of leaves */
 static int depth_t(int n) {
-	if (!VF_THOROUGH) return n <= 4 ? 2 : -1;
+	if (!VF_THOROUGH) return n <= 5 ? 2 : -1;
 	return n <= 5 ? 3 : n <= 7 ? 2 : -1;
 }
 static int depth_u(int n) {
@@ -465,8 +472,11 @@ static void part_trees(const char *part, int (*depth)(int), int nout) {
 static void part_fallback(void) {
 	int m;
 	for (m = 1; m <= MAXPOL; m++) {
+		/* per-policy tree bound: thorough <= 2 rules, depth <= 2 (depth <= 1 for 4 policies);
+		 * quick <= 2 rules, depth <= 1 (<= 1 rule for 4 policies) */
 		int d = VF_THOROUGH ? (m <= 3 ? 2 : 1) : 1, i;
-		uint64_t nt = Lc[d][1] + Lc[d][2], total = 1, idx;
+		int two = VF_THOROUGH || m <= 3;
+		uint64_t nt = Lc[d][1] + (two ? Lc[d][2] : 0), total = 1, idx;
 		for (i = 0; i < m; i++) total *= nt;
 		for (idx = 0; idx < total; idx++) {
 			char text[400], *o = text;
